@@ -956,13 +956,35 @@ namespace riddle
             tk = next();
 
             size_t c_pos = pos;
+            // a cast is '(' qualified-id ')' followed by the beginning of an operand; anything else is a parenthesis..
+            bool is_cast = true;
             do
             {
                 if (!match(ID_ID))
-                    error("expected identifier..");
+                {
+                    is_cast = false;
+                    break;
+                }
             } while (match(DOT_ID));
+            if (is_cast && match(RPAREN_ID))
+                switch (tk->sym)
+                {
+                case BoolLiteral_ID:
+                case IntLiteral_ID:
+                case RealLiteral_ID:
+                case StringLiteral_ID:
+                case LPAREN_ID:
+                case BANG_ID:
+                case NEW_ID:
+                case ID_ID:
+                    break;
+                default:
+                    is_cast = false;
+                }
+            else
+                is_cast = false;
 
-            if (match(RPAREN_ID)) // a cast..
+            if (is_cast) // a cast..
             {
                 backtrack(c_pos);
                 std::vector<id_token> ids;
